@@ -1,3 +1,8 @@
+import io, sys as _sys
+_buf = io.StringIO()
+_real_print = print
+def print(*a, **k):
+    _real_print(*a, **k, file=_buf) if '--write' in _sys.argv else _real_print(*a, **k)
 """print the per-property 'as built' table for DESIGN.md §14.7 from the tree"""
 import glob, importlib, json, os, re, sys
 V = os.path.dirname(os.path.dirname(os.path.abspath(__file__)))
@@ -30,3 +35,11 @@ for p in props:
     op = [i for i, s in find.get(pid, []) if s == 'open']
     fx = [i for i, s in find.get(pid, []) if s != 'open']
     print(f"| {pid} | {nth} | {nk} | {', '.join(extra + models) or '-'} | {evs} | {', '.join(op) or '-'} | {', '.join(fx) or '-'} |")
+
+if '--write' in _sys.argv:
+    import os as _os
+    dp = _os.path.join(_os.path.dirname(_os.path.dirname(_os.path.abspath(__file__))), 'DESIGN.md')
+    d = open(dp).read()
+    a, b = d.index('<!-- TABLE:BEGIN -->') + len('<!-- TABLE:BEGIN -->'), d.index('<!-- TABLE:END -->')
+    open(dp, 'w').write(d[:a] + '\n' + _buf.getvalue() + d[b:])
+    _real_print('DESIGN.md table refreshed')
